@@ -1,9 +1,9 @@
 """C05 - decided on one real DemeTree.run_step from a symbolic-flag state (see tstep.py / _tree.py)."""
 from .trun import run_cases, run_loop_cases
-from .tstep import tree_cases, TREE_BOUNDS as BOUNDS, TREE_OUTSIDE as OUTSIDE, TREE_ASSUMPTIONS as ASSUMPTIONS
+from .tstep import condition_cases, tree_cases, TREE_BOUNDS as BOUNDS, TREE_OUTSIDE as OUTSIDE, TREE_ASSUMPTIONS as ASSUMPTIONS
 
 PROPERTY = "C05"
 
 
 def cases(tier):
-    return tree_cases(PROPERTY, tier, hibernation_values=(False, True)) + run_cases(PROPERTY, tier) + run_loop_cases(tier)
+    return tree_cases(PROPERTY, tier, hibernation_values=(False, True)) + run_cases(PROPERTY, tier) + run_loop_cases(tier) + condition_cases(tier)
